@@ -394,16 +394,20 @@ def cart (nd : Nat) (f : FrameSpec α) (a : AtomSpec α) (i : Nat) : α :=
 def byId (atoms : List (AtomSpec α)) (k : Nat) : Option (AtomSpec α) :=
   atoms.find? fun a => a.id = (k : Int) + 1
 
+/-- the value `g` of the atom line carrying id `k+1` (`d` if there is none — never the case for a well-formed frame) -/
+def atId {β : Type} (atoms : List (AtomSpec α)) (k : Nat) (g : AtomSpec α → β) (d : β) : β :=
+  match byId atoms k with
+  | some a => g a
+  | none => d
+
 /-- the snapshot a frame must be read back as -/
 def expected (nd : Nat) (f : FrameSpec α) : Frame α :=
   let N := f.atoms.length
   { timestep := f.timestep
     nparticle := N
-    ptype := (List.range N).map fun k => match byId f.atoms k with | some a => a.type | none => 0
+    ptype := (List.range N).map fun k => atId f.atoms k (·.type) 0
     positions := (List.range N).map fun k =>
-      match byId f.atoms k with
-      | some a => (List.range nd).map (cart nd f a)
-      | none => List.replicate nd 0
+      atId f.atoms k (fun a => (List.range nd).map (cart nd f a)) (List.replicate nd 0)
     boxlength := (List.range nd).map fun i => f.hi i - f.lo i
     boxbounds := (List.range nd).map fun i => [bndLo f i, bndHi f i]
     realbounds := if f.tric then some ((List.range nd).map fun i => [f.lo i, f.hi i]) else none
